@@ -363,9 +363,9 @@ static Res one_case(Out& out, Obs& obs, uint64_t seed, const std::string& tier, 
     const bool structured = (fam == 5 && rep >= 100 && rep < 200); const int skind = structured ? (rep - 100) % 8 : -1;
     const bool history = ((genfam || fam == 11) && rep >= 200);   // fam 11 (Davidson, no init()): compute(ruleA); compute(ruleB) on one object
     if (structured) { static const int sn[3] = {24, 30, 36}; n = thorough ? sn[((rep - 100) / 8) % 3] : 24; if ((rule == 2 || rule == 6) && (skind == 3 || skind == 5 || skind == 6)) n += 1; }
-    if (history) n = 30;
+    if (history) n = (fam == 11) ? 100 : 30;
     if ((fam == 7 || fam == 13) && n > 100) n = 100;                      // iterative inner solves / sparse products: keep the cost bounded
-    int nev = r.range(1, 6); if (fam == 13) nev = r.range(2, 6);
+    int nev = r.range(1, 6); if (fam == 13) nev = r.range(2, 6); if (fam == 11 && history) nev = r.range(2, 6);
     int ncv = 2 * nev + 1 + r.range(0, 6); if (ncv > n) ncv = n;
     if (full) { ncv = n; with_model = false; }     // full-space run: the Krylov space is everything, the Ritz values are the eigenvalues, only the selection logic is left
     const int type = rep % 3;
@@ -454,7 +454,11 @@ static Res one_case(Out& out, Obs& obs, uint64_t seed, const std::string& tier, 
                   res = run_krylov(c, s, false, ref_pencil(A, B), [sg](CL z) { return (z + sg) / (z - sg); }, std::fabs(sg), 3); }
               break; }
     case 11: { // Davidson: diagonally dominant (the solver's diagonal preconditioner assumes it); the reference decomposition defines the spectrum
-              Vec d = sym_spectrum(r, n, rule, type); Mat A = Mat::Zero(n, n); for (int i = 0; i < n; i++) { A(i, i) = d[i]; for (int j = 0; j < i; j++) { double v = 0.02 * r.sym(); A(i, j) = v; A(j, i) = v; } }
+              Vec d = sym_spectrum(r, n, rule, type);
+              // history share: magnitudes 1..n, the odd ones above 40 negative: the top of the spectrum by magnitude alternates in sign, so
+              // an initial space taken from one END of the diagonal (the order of another rule) does not contain the wanted directions
+              if (history) { for (int i = 0; i < n; i++) { const int m = i + 1; d[i] = ((m % 2 == 1 && m > 40) ? -1.0 : 1.0) * m; } for (int i = n - 1; i > 0; i--) std::swap(d[i], d[(int) r.below((uint64_t) i + 1)]); }
+              Mat A = Mat::Zero(n, n); for (int i = 0; i < n; i++) { A(i, i) = d[i]; for (int j = 0; j < i; j++) { double v = 0.02 * r.sym(); A(i, j) = v; A(j, i) = v; } }
               Spectra::DenseSymMatProd<double> op(A); Spectra::DavidsonSymEigsSolver<Spectra::DenseSymMatProd<double>> s(op, nev);
               out.count("oracle_runs"); long nc = -1; std::string ex;
               try { if (g_pre_rule >= 0) { try { s.compute((SortRule) g_pre_rule, 300, 1e-10); } catch (const std::exception&) {} out.count("davidson_history_runs"); }   // history share: another rule first, same object
